@@ -347,6 +347,16 @@ for _nm, _code, _obs in (
 ):
     atom("closing_bracket_own_line[%s]" % _nm, _code, _obs, ["alone"])
 
+# every cast x every comprehension kind, over elements with duplicates (family added after the seeded change
+# C02-iter-of-set-comprehension: iter({...}) lost the set's deduplication)
+for _f in ("iter", "list", "set", "tuple", "sorted", "frozenset", "reversed_list"):
+    _calls = []
+    for _k, _comp in (("list", "[w % 2 for w in ws]"), ("set", "{w % 2 for w in ws}"), ("dict", "{w % 2: w for w in ws}"), ("gen", "(w % 2 for w in ws)")):
+        _inner = "list(reversed(list(%s)))" % _comp if _f == "reversed_list" else "%s(%s)" % (_f, _comp)
+        _calls.append("sorted(%s)" % _inner)
+        _calls.append("len(list(%s))" % _inner)
+    atom("cast_of_comprehension_kind[%s]" % _f, "ws = [3, 1, 2, 3, 1]\na = (%s)\n" % ", ".join(_calls), "a", ["alone"])
+
 atom("twin_literals", "e0 = 12\nunit = 'ms'\nspec = 'd'\na = (f'{e0}ms', unit, f'{e0:d}', spec, f'{e0:>4}' '>4', f'''{e0}\nms''', 'ms', \"ms\", r'ms')\n", "a", ["alone"])
 
 # ---- shadowing family: an outer variable the naming rule renames x an inner function whose parameter of each kind has
